@@ -53,7 +53,7 @@ class Mnemonic(object):
         
         :return str: Checksum of key in bits
         """
-        data = to_bytes(data)
+        data = data if isinstance(data, bytes) else to_bytes(data)
         if len(data) % 4 > 0:
             raise ValueError('Data length in bits should be divisible by 32, but it is not (%d bytes = %d bits).' %
                              (len(data), len(data) * 8))
@@ -145,7 +145,7 @@ class Mnemonic(object):
         
         :return str: Mnemonic passphrase consisting of a space seperated list of words
         """
-        data = to_bytes(data)
+        data = data if isinstance(data, bytes) else to_bytes(data)
         data_int = int.from_bytes(data, 'big')
         if check_on_curve and not 0 < data_int < secp256k1_n:
             raise ValueError("Integer value of data should be in secp256k1 domain between 1 and secp256k1_n-1")
